@@ -382,3 +382,36 @@ func ReachesCall(fn *ssa.Function, depth int, pred func(*ssa.Function) bool) boo
 	}
 	return walk(fn, depth)
 }
+
+// Strip removes loads and conversions only (no getter inlining).
+func Strip(v ssa.Value) ssa.Value {
+	for i := 0; i < 12 && v != nil; i++ {
+		switch x := v.(type) {
+		case *ssa.UnOp:
+			if x.Op == token.MUL {
+				if a, ok := x.X.(*ssa.Alloc); ok {
+					if st := reachingStore(a, x); st != nil {
+						v = st.Val
+						continue
+					}
+					if sts := StoresTo(a); len(sts) == 1 {
+						v = sts[0].Val
+						continue
+					}
+				}
+				v = x.X
+				continue
+			}
+			return v
+		case *ssa.Convert:
+			v = x.X
+		case *ssa.ChangeType:
+			v = x.X
+		case *ssa.MakeInterface:
+			v = x.X
+		default:
+			return v
+		}
+	}
+	return v
+}
